@@ -77,11 +77,14 @@ def depFactsBefore : DepFacts :=
     multiRetry := false,
     splitPaired := false }
 
-/-- fingerprints of the statements `depFacts` was read from (`getVarDependencies` is in `sourceHashes`) -/
+/-- fingerprints of the statements `depFacts` was read from (`getVarDependencies` is in `sourceHashes`)
+    and of `compDefineX` (as of 2d7bcd6: for `var v, ok = m[k]` / `<-c` it asks `nodeType` for the type
+    of the operand at once — `VarSpec.operandLater`, F15-9) -/
 def depHashes : List (String × String) :=
   [("gta: case defineXStmt", "51d7c97a02551840"),
    ("gtaRetry", "737ad8e893ad854e"),
    ("ast: case token.VAR", "d95ba4f780b05d24"),
-   ("splitVarSpecs", "9f5cbf17b563afa2")]
+   ("splitVarSpecs", "9f5cbf17b563afa2"),
+   ("compDefineX", "2e6d04f3268d22ec")]
 
 end YaegiVerif.Expected.C15
